@@ -87,6 +87,8 @@ private theorem fx3 : Config.fixed.maskImplType = false := rfl
 private theorem fx4 : Config.fixed.preciseResolver = true := rfl
 private theorem fx5 : Config.fixed.extraArgRequired = true := rfl
 private theorem fx6 : Config.fixed.subscriptionChecked = true := rfl
+private theorem fx7 : Config.fixed.ifaceResolverChecked = false := rfl
+private theorem fx8 : Config.fixed.notCallableReported = true := rfl
 
 private theorem validate_eq' (s : SchemaD) (rv : Bool) : validate s rv = validateFixed s rv := by
   unfold validate; rw [config_fixed]
@@ -151,10 +153,10 @@ private theorem mem_resolverArgErr (path : String) (ps : List ParamD) (varKw : B
       cases h1 : (leadingNames ps).contains cl.name <;> cases hk : cl.kind <;> cases varKw <;> simp [h1, hk] <;> simp_all
 
 private theorem mem_validateResolverArguments (path : String) (args : List ArgD) (r : ResolverD)
-    (hi : r.inspectable = true) (e : Err) :
+    (hc : r.callable = true) (hi : r.inspectable = true) (e : Err) :
     e ∈ validateResolverArguments path args r ↔ ResolverViol path args r e := by
   unfold validateResolverArguments validateResolverArgumentsWith resolverErrs
-  simp only [hi, Bool.not_true, Bool.false_eq_true, if_false, fx4, if_true, List.mem_append, List.mem_flatMap,
+  simp only [hc, hi, Bool.not_true, Bool.false_eq_true, if_false, fx4, if_true, List.mem_append, List.mem_flatMap,
     mem_resolverArgErr]
   constructor
   · rintro ((h | ⟨a, ha, h⟩) | ⟨p, hp, h⟩)
@@ -183,7 +185,9 @@ private theorem mem_validateResolverArguments (path : String) (args : List ArgD)
 
 private theorem mem_resolverPart (rv : Bool) (path : String) (args : List ArgD) (o : Option ResolverD) (e : Err) :
     e ∈ resolverPart Config.fixed rv path args o ↔
-      ∃ r, o = some r ∧ rv = true ∧ r.inspectable = true ∧ ResolverViol path args r e := by
+      ∃ r, o = some r ∧ rv = true ∧
+        ((r.callable = false ∧ e = ⟨.resNotCallable, [path]⟩) ∨
+         (r.callable = true ∧ r.inspectable = true ∧ ResolverViol path args r e)) := by
   unfold resolverPart
   cases o with
   | none => simp
@@ -191,27 +195,50 @@ private theorem mem_resolverPart (rv : Bool) (path : String) (args : List ArgD) 
     cases rv with
     | false => simp
     | true =>
-      cases hi : r.inspectable with
+      cases hc : r.callable with
+      | false => simp [validateResolverArgumentsWith, hc, fx8]
       | true =>
-        have := mem_validateResolverArguments path args r hi e
-        unfold validateResolverArguments at this
-        simp [this, hi]
-      | false => simp [validateResolverArgumentsWith, hi]
+        cases hi : r.inspectable with
+        | true =>
+          have := mem_validateResolverArguments path args r hc hi e
+          unfold validateResolverArguments at this
+          simp [this, hi, hc]
+        | false => simp [validateResolverArgumentsWith, hi, hc]
+
+private theorem mem_resolversOfField (s : SchemaD) (rv : Bool) (t : TypeD) (f : FieldD) (e : Err) :
+    e ∈ resolversOfField Config.fixed s rv t f ↔
+      ∃ r, (pickResolver s t f = some r ∨ f.subscriptionResolver = some r) ∧ rv = true ∧
+        ((r.callable = false ∧ e = ⟨.resNotCallable, [t.name ++ "." ++ f.name]⟩) ∨
+         (r.callable = true ∧ r.inspectable = true ∧ ResolverViol (t.name ++ "." ++ f.name) f.args r e)) := by
+  unfold resolversOfField
+  simp only [List.mem_append, fx6, if_true, mem_resolverPart]
+  constructor
+  · rintro (⟨r, h1, h2⟩ | ⟨r, h1, h2⟩)
+    · exact ⟨r, Or.inl h1, h2⟩
+    · exact ⟨r, Or.inr h1, h2⟩
+  · rintro ⟨r, h1 | h1, h2⟩
+    · exact Or.inl ⟨r, h1, h2⟩
+    · exact Or.inr ⟨r, h1, h2⟩
 
 private theorem mem_fieldBody (s : SchemaD) (rv : Bool) (t : TypeD) (f : FieldD) (e : Err) :
     e ∈ fieldBody s rv t f ↔
       (isOutputType s f.type = false ∧ e = ⟨.fieldNotOutput, [f.name, t.name, f.type.render]⟩) ∨
       ArgViol s .dupArg .argNotInput (t.name ++ "." ++ f.name) f.args e ∨
-      (∃ r, pickResolver s t f = some r ∧ rv = true ∧ r.inspectable = true ∧
-        ResolverViol (t.name ++ "." ++ f.name) f.args r e) ∨
-      (∃ r, f.subscriptionResolver = some r ∧ rv = true ∧ r.inspectable = true ∧
-        ResolverViol (t.name ++ "." ++ f.name) f.args r e) := by
+      (t.kind = .object ∧ ∃ r, (pickResolver s t f = some r ∨ f.subscriptionResolver = some r) ∧ rv = true ∧
+        ((r.callable = false ∧ e = ⟨.resNotCallable, [t.name ++ "." ++ f.name]⟩) ∨
+         (r.callable = true ∧ r.inspectable = true ∧ ResolverViol (t.name ++ "." ++ f.name) f.args r e))) := by
   have ha := mem_validateArguments s .dupArg .argNotInput (t.name ++ "." ++ f.name) f.args e
   unfold validateArguments at ha
   unfold fieldBody fieldBodyWith
-  simp only [List.mem_append, ha, mem_resolverPart, fx6, if_true, or_assoc]
-  refine or_congr ?_ Iff.rfl
-  cases isOutputType s f.type <;> simp
+  simp only [List.mem_append, ha, fx7, Bool.or_false, or_assoc]
+  refine or_congr ?_ (or_congr Iff.rfl ?_)
+  · cases isOutputType s f.type <;> simp
+  · by_cases hk : t.kind = .object
+    · have hk' : (t.kind == Kind.object) = true := by simp [hk]
+      simp only [hk', if_true, mem_resolversOfField]
+      simp only [hk, true_and]
+    · have hk' : (t.kind == Kind.object) = false := by simpa using hk
+      simp [hk', hk]
 
 private theorem mem_validateFields (s : SchemaD) (rv : Bool) (t : TypeD) (e : Err) :
     e ∈ validateFields s rv t ↔ (t.fields = [] ∧ e = ⟨.noFields, [t.name]⟩) ∨ FieldViol s rv t e := by
@@ -227,11 +254,13 @@ private theorem mem_validateFields (s : SchemaD) (rv : Bool) (t : TypeD) (e : Er
       rcases (mem_step (·.name) pre f _ _ _ e).1 h with h | ⟨hm, h⟩ | h
       · obtain ⟨hn, rfl⟩ := (mem_checkValidName _ _).1 h; exact .name hat hn
       · simp only [List.mem_singleton] at h; subst h; exact .dup hat hm
-      · rcases (hb f e).1 h with ⟨ho, rfl⟩ | ha | ⟨r, h1, h2, h3, h4⟩ | ⟨r, h1, h2, h3, h4⟩
+      · rcases (hb f e).1 h with ⟨ho, rfl⟩ | ha | ⟨hk, r, h1, h2, ⟨h3, rfl⟩ | ⟨h3, h4, h5⟩⟩
         · exact .notOutput hat ho
         · exact .arg hat ha
-        · exact .resolver hat h1 h2 h3 h4
-        · exact .subscription hat h1 h2 h3 h4
+        · exact .notCallable hat hk h1 h2 h3
+        · rcases h1 with h1 | h1
+          · exact .resolver hat hk h1 h2 h3 h4 h5
+          · exact .subscription hat hk h1 h2 h3 h4 h5
     · intro h
       cases h with
       | @name pre f hat hn => exact ⟨pre, f, hat, (mem_step (·.name) pre f _ _ _ _).2 (Or.inl ((mem_checkValidName _ _).2 ⟨hn, rfl⟩))⟩
@@ -240,10 +269,12 @@ private theorem mem_validateFields (s : SchemaD) (rv : Bool) (t : TypeD) (e : Er
         exact ⟨pre, f, hat, (mem_step (·.name) pre f _ _ _ _).2 (Or.inr (Or.inr ((hb f _).2 (Or.inl ⟨ho, rfl⟩))))⟩
       | @arg pre f e hat ha =>
         exact ⟨pre, f, hat, (mem_step (·.name) pre f _ _ _ _).2 (Or.inr (Or.inr ((hb f _).2 (Or.inr (Or.inl ha)))))⟩
-      | @resolver pre f r e hat h1 h2 h3 h4 =>
-        exact ⟨pre, f, hat, (mem_step (·.name) pre f _ _ _ _).2 (Or.inr (Or.inr ((hb f _).2 (Or.inr (Or.inr (Or.inl ⟨r, h1, h2, h3, h4⟩))))))⟩
-      | @subscription pre f r e hat h1 h2 h3 h4 =>
-        exact ⟨pre, f, hat, (mem_step (·.name) pre f _ _ _ _).2 (Or.inr (Or.inr ((hb f _).2 (Or.inr (Or.inr (Or.inr ⟨r, h1, h2, h3, h4⟩))))))⟩
+      | @resolver pre f r e hat hk h1 h2 h3 h4 h5 =>
+        exact ⟨pre, f, hat, (mem_step (·.name) pre f _ _ _ _).2 (Or.inr (Or.inr ((hb f _).2 (Or.inr (Or.inr ⟨hk, r, Or.inl h1, h2, Or.inr ⟨h3, h4, h5⟩⟩)))))⟩
+      | @subscription pre f r e hat hk h1 h2 h3 h4 h5 =>
+        exact ⟨pre, f, hat, (mem_step (·.name) pre f _ _ _ _).2 (Or.inr (Or.inr ((hb f _).2 (Or.inr (Or.inr ⟨hk, r, Or.inr h1, h2, Or.inr ⟨h3, h4, h5⟩⟩)))))⟩
+      | @notCallable pre f r hat hk h1 h2 h3 =>
+        exact ⟨pre, f, hat, (mem_step (·.name) pre f _ _ _ _).2 (Or.inr (Or.inr ((hb f _).2 (Or.inr (Or.inr ⟨hk, r, h1, h2, Or.inl ⟨h3, rfl⟩⟩)))))⟩
 
 private theorem mem_ifaceArgErr (ip op : String) (o : FieldD) (a : ArgD) (e : Err) :
     e ∈ ifaceArgErr ip op o a ↔
